@@ -57,6 +57,7 @@ type HeapCtx struct {
 type freshProv struct {
 	old  *Term
 	next *Term // allocation counter before the call / loop: cells of objects below it are unchanged
+	cond *Term // nil, or the condition under which this hop is fresh-only (readonly when ...)
 }
 
 type opaqueSym struct {
@@ -70,7 +71,15 @@ func (h *HeapCtx) noteFreshFrame(before, after, next *Term) {
 	if h.freshFrom == nil {
 		h.freshFrom = map[string]freshProv{}
 	}
-	h.freshFrom[after.S] = freshProv{before, next}
+	h.freshFrom[after.S] = freshProv{before, next, nil}
+}
+
+// noteFreshFrameCond: as noteFreshFrame, but the frame holds only when cond does.
+func (h *HeapCtx) noteFreshFrameCond(before, after, next, cond *Term) {
+	if h.freshFrom == nil {
+		h.freshFrom = map[string]freshProv{}
+	}
+	h.freshFrom[after.S] = freshProv{before, next, cond}
 }
 
 // wfArr: every reference stored in heap array a is nil or allocated (id < nx); slices are well-formed.
